@@ -964,6 +964,13 @@ type Content struct {
 	// Uint32Slice is a specialized byte slice designed for storing and managing 4-byte (uint32) values in a
 	// compact and efficient format.
 	Uint32Slice *Uint32Slice
+	// Kind records, in the stored form only, which of the value fields above is set.
+	// The model is gob-encoded and gob omits zero values, also behind pointers: without this
+	// field a typed zero (0, false, "", an empty byte array) comes back as a nil pointer after
+	// a reload and the record looks void. ConvertToByte sets it right before encoding and
+	// LoadFromByte uses it to restore the omitted zero value; nothing else reads it. Old
+	// files simply have Kind == ContentTypeVoid and behave as before.
+	Kind ContentType
 }
 
 // TreasureStatus is an enumeration type representing the status of a "Treasure" operation in the Swamp.
@@ -1561,6 +1568,11 @@ func (t *treasure) ConvertToByte(guardID guard.ID) ([]byte, error) {
 		newObj.treasure.Content = t.treasure.Content
 	}
 
+	// remember which value field is set, so that a typed zero value survives the reload
+	if t.treasure.Content != nil {
+		t.treasure.Content.Kind = t.GetContentType()
+	}
+
 	var buf bytes.Buffer
 	encoder := gob.NewEncoder(&buf)
 	err := encoder.Encode(t.treasure)
@@ -1586,9 +1598,77 @@ func (t *treasure) LoadFromByte(guardID guard.ID, b []byte, fileName string) err
 	if err != nil {
 		return err
 	}
+	restoreOmittedZeroValue(t.treasure.Content)
 	// filenév beállítása
 	t.treasure.FileName = &fileName
 	return nil
+}
+
+// restoreOmittedZeroValue puts back the typed zero value that gob left out of the stored
+// form (see Content.Kind). Content written before Kind existed has Kind == ContentTypeVoid
+// and is left untouched.
+func restoreOmittedZeroValue(c *Content) {
+	if c == nil || c.Void {
+		return
+	}
+	switch c.Kind {
+	case ContentTypeUint8:
+		if c.Uint8 == nil {
+			c.Uint8 = new(uint8)
+		}
+	case ContentTypeUint16:
+		if c.Uint16 == nil {
+			c.Uint16 = new(uint16)
+		}
+	case ContentTypeUint32:
+		if c.Uint32 == nil {
+			c.Uint32 = new(uint32)
+		}
+	case ContentTypeUint64:
+		if c.Uint64 == nil {
+			c.Uint64 = new(uint64)
+		}
+	case ContentTypeInt8:
+		if c.Int8 == nil {
+			c.Int8 = new(int8)
+		}
+	case ContentTypeInt16:
+		if c.Int16 == nil {
+			c.Int16 = new(int16)
+		}
+	case ContentTypeInt32:
+		if c.Int32 == nil {
+			c.Int32 = new(int32)
+		}
+	case ContentTypeInt64:
+		if c.Int64 == nil {
+			c.Int64 = new(int64)
+		}
+	case ContentTypeFloat32:
+		if c.Float32 == nil {
+			c.Float32 = new(float32)
+		}
+	case ContentTypeFloat64:
+		if c.Float64 == nil {
+			c.Float64 = new(float64)
+		}
+	case ContentTypeString:
+		if c.String == nil {
+			c.String = new(string)
+		}
+	case ContentTypeBoolean:
+		if c.Boolean == nil {
+			c.Boolean = new(bool)
+		}
+	case ContentTypeByteArray:
+		if c.ByteArray == nil {
+			c.ByteArray = []byte{}
+		}
+	case ContentTypeUint32Slice:
+		if c.Uint32Slice == nil {
+			c.Uint32Slice = &Uint32Slice{}
+		}
+	}
 }
 
 func (t *treasure) SetContentVoid(guardID guard.ID) {
